@@ -36,7 +36,17 @@ const c05News = `Categories:
     Type: [0, 2]
     Name: Bun
     Articles: {}
-    SubCats: {}
+    SubCats:
+      Inner:
+        Type: [0, 3]
+        Name: Inner
+        Articles: {}
+        SubCats: {}
+      InnerBun:
+        Type: [0, 2]
+        Name: InnerBun
+        Articles: {}
+        SubCats: {}
   Cat:
     Type: [0, 3]
     Name: Cat
@@ -138,6 +148,18 @@ var c05Kinds = []c05Kind{
 	}, ""},
 	{"news-delete-bundle", []int{ref.PNewsDeleteFldr}, func(x c05Ctx) ref.Tx {
 		return ref.Tx{Type: ref.TDelNewsItem, Fields: []ref.Fld{ref.F(ref.FNewsPath, ref.NewsPathBytes("Bun"))}}
+	}, ""},
+	{"news-delete-nested-category", []int{ref.PNewsDeleteCat}, func(x c05Ctx) ref.Tx {
+		return ref.Tx{Type: ref.TDelNewsItem, Fields: []ref.Fld{ref.F(ref.FNewsPath, ref.NewsPathBytes("Bun", "Inner"))}}
+	}, ""},
+	{"news-delete-nested-bundle", []int{ref.PNewsDeleteFldr}, func(x c05Ctx) ref.Tx {
+		return ref.Tx{Type: ref.TDelNewsItem, Fields: []ref.Fld{ref.F(ref.FNewsPath, ref.NewsPathBytes("Bun", "InnerBun"))}}
+	}, ""},
+	{"news-post-article-nested", []int{ref.PNewsPostArt}, func(x c05Ctx) ref.Tx {
+		return ref.Tx{Type: ref.TPostNewsArt, Fields: []ref.Fld{ref.F(ref.FNewsPath, ref.NewsPathBytes("Bun", "Inner")), ref.F32(ref.FNewsArtID, 0), ref.FS(ref.FNewsArtTitle, "t2"), ref.FS(ref.FNewsArtDataFlav, "text/plain"), ref.FS(ref.FNewsArtData, "b2")}}
+	}, ""},
+	{"news-create-category-nested", []int{ref.PNewsCreateCat}, func(x c05Ctx) ref.Tx {
+		return ref.Tx{Type: ref.TNewNewsCat, Fields: []ref.Fld{ref.FS(ref.FNewsCatName, "NewInner"), ref.F(ref.FNewsPath, ref.NewsPathBytes("Bun"))}}
 	}, ""},
 	{"news-create-bundle", []int{ref.PNewsCreateFldr}, func(x c05Ctx) ref.Tx {
 		return ref.Tx{Type: ref.TNewNewsFldr, Fields: []ref.Fld{ref.FS(ref.FFileName, "NewBun")}}
@@ -264,6 +286,73 @@ var c05Kinds = []c05Kind{
 
 // special kinds with their own oracle
 var c05Special = []string{"anyname-login", "anyname-setinfo", "anyname-agreed", "chat-read"}
+
+// live-session family: an administrator edits an account that has a live session; what that
+// session may do afterwards follows the account's current privileges.
+var c05LiveProbes = []struct {
+	name string
+	bit  int
+	tx   ref.Tx
+}{
+	{"get-messages", ref.PNewsReadArt, ref.Tx{Type: ref.TGetMsgs}},
+	{"broadcast", ref.PBroadcast, ref.Tx{Type: ref.TUserBroadcast, Fields: []ref.Fld{ref.FS(ref.FData, "x")}}},
+	{"create-folder", ref.PCreateFolder, ref.Tx{Type: ref.TNewFolder, Fields: []ref.Fld{ref.FS(ref.FFileName, "lf")}}},
+	{"list-accounts", ref.POpenUser, ref.Tx{Type: ref.TListUsers}},
+}
+
+func c05Live(w *explore.Worker, c c05Case) {
+	var pi, grant int
+	fmt.Sscanf(c.Kind, "live:%d:%d", &pi, &grant)
+	pr := c05LiveProbes[pi]
+	fail := func(clause, detail string) {
+		w.Violation("C05/live-session/"+pr.name+"/"+clause, fmt.Sprintf("probe %s grant=%d: %s", pr.name, grant, detail), 0, c)
+	}
+	seqChecked(w, "C05", "live", c, func() {
+		before, after := world.Bits(ref.PReadChat), world.Bits(ref.PReadChat, pr.bit)
+		if grant == 0 {
+			before, after = after, before
+		}
+		wd := world.New(world.Cfg{Board: "b", Files: c05Files, Accounts: []world.Acct{
+			{Login: "guest", Name: "Guest"},
+			{Login: "adm", Name: "adm", Password: "ap", Access: world.AllAccess},
+			{Login: "vic", Name: "Victim", Password: "vp", Access: before},
+		}})
+		defer wd.Close()
+		adm, r1 := wd.Connect("10.0.0.9:1009", "adm", "ap", "adm")
+		v1, r2 := wd.Connect("10.0.0.4:1004", "vic", "vp", "Victim")
+		v2, r3 := wd.Connect("10.0.0.5:1005", "vic", "vp", "Victim") // a second session of the same account
+		if r1 == nil || r2 == nil || r3 == nil || r1.Err != 0 || r2.Err != 0 || r3.Err != 0 {
+			w.Broken("C05 live: logins failed")
+			return
+		}
+		id := adm.Req(ref.TSetUser, ref.F(ref.FUserLogin, obf("vic")), ref.FS(ref.FUserName, "Victim"), ref.F(ref.FUserPassword, []byte{0}), ref.F(ref.FUserAccess, after[:]))
+		world.Quiet()
+		if r := adm.Reply(id); r == nil || r.Err != 0 {
+			fail("set-user-refused", fmt.Sprint(r))
+			return
+		}
+		for si, v := range []*world.Client{v1, v2} {
+			t := pr.tx
+			pid := v.Send(t)
+			world.Quiet()
+			rp := v.Reply(pid)
+			denied := rp != nil && rp.Err != 0 && strings.Contains(strings.ToLower(fieldStr(rp, ref.FError)), "not allowed")
+			if grant == 1 && denied {
+				fail("granted-privilege-not-effective-for-live-session", fmt.Sprintf("session %d: %s", si+1, fieldStr(rp, ref.FError)))
+			}
+			if grant == 0 && !denied {
+				fail("revoked-privilege-still-effective-for-live-session", fmt.Sprintf("session %d: reply %v", si+1, rp))
+			}
+		}
+		// the administrator's own session is unaffected by editing somebody else
+		lid := adm.Req(ref.TListUsers)
+		world.Quiet()
+		if r := adm.Reply(lid); r == nil || r.Err != 0 {
+			fail("editing-another-account-changed-the-editor's-privileges", fmt.Sprint(r))
+		}
+		w.Outcome(fmt.Sprintf("live %s %d", pr.name, grant))
+	})
+}
 
 type c05Case struct {
 	Kind string  `json:"kind"`
@@ -452,6 +541,10 @@ func c05Reference(w *explore.Worker, k c05Kind) *c05Ref {
 }
 
 func c05Check(w *explore.Worker, c c05Case) {
+	if strings.HasPrefix(c.Kind, "live:") {
+		c05Live(w, c)
+		return
+	}
 	for _, s := range c05Special {
 		if s == c.Kind {
 			c05CheckSpecial(w, c)
@@ -629,6 +722,11 @@ func runC05(w *explore.Worker) {
 	for _, s := range c05Special {
 		for _, b := range c05Bitmaps(nil) {
 			cases = append(cases, c05Case{s, b})
+		}
+	}
+	for pi := range c05LiveProbes {
+		for grant := 0; grant < 2; grant++ {
+			cases = append(cases, c05Case{Kind: fmt.Sprintf("live:%d:%d", pi, grant)})
 		}
 	}
 	// shard by kind-major order so that each worker computes few references: deal cases round robin per kind block
